@@ -14,12 +14,19 @@ type byte and where the value / size comes from.
 
 Nothing here compares with an expectation: a construct that is not understood becomes a row with
 ABad / HBad / RBadTest / RBadSize / PBadPay, which the theorems of Msgpack/HeadersMatch.v reject.
-`rows()` returns the same data for the failing-input search of engines/c13.py."""
+`rows()` returns the same data for the failing-input search of engines/c13.py.
+
+Reader checks (coq/Gen/IoReaderChecks.v, meaning in Msgpack/ReaderChecks.v): the BODIES of
+Reader::check_eof, Reader::read and Reader::check_type as statement trees
+  KThrow | KIf <CNotStream|CStreamEof|CObsNeqExp|CBadCond> th el | KStreamRead | KCheckEof | KObsGet8 | KBad
+and the member functions in whose definition `is_` occurs (READER_STREAM_USERS).  A statement,
+condition, signature or function that is not understood is KBad / CBadCond / UOther."""
 import os
 import re
 
 REPO = os.environ.get("PV_REPO", "/repo")
 OUT = "/verif/coq/Gen/IoHeaders.v"
+OUT_CHECKS = "/verif/coq/Gen/IoReaderChecks.v"
 
 KINDS = ["HkNil", "HkBool", "HkU8", "HkU16", "HkU32", "HkU64", "HkI8", "HkI16", "HkI32", "HkI64", "HkF32", "HkF64",
          "HkStr", "HkBin", "HkExt", "HkArr", "HkMap"]
@@ -685,6 +692,115 @@ def reader_overload(kind, st, line):
     return rows
 
 
+# ------------------------------------------------------------------ reader checks
+def member_functions(toks, cls):
+    """every member function DEFINITION of `class <cls>`: [(name, param toks, tokens between `)` and `{`,
+    body toks, tokens in front of the name back to the previous `;` / `}` / `:`, line)], source order"""
+    i = 0
+    while i + 1 < len(toks) and not (toks[i][0] == "class" and toks[i + 1][0] == cls):
+        i += 1
+    while i < len(toks) and toks[i][0] != "{":
+        if toks[i][0] == ";":
+            raise ValueError("class %s is only declared" % cls)
+        i += 1
+    if i >= len(toks):
+        raise ValueError("class %s not found" % cls)
+    end = match_close(toks, i)
+    out, p, start = [], i + 1, i + 1
+    while p < end:
+        t = toks[p][0]
+        if t in (";", "}"):
+            start = p + 1
+        elif t == ":" and toks[p - 1][0] in ("public", "private", "protected"):
+            start = p + 1
+        if t == "{":                      # a brace that is not a function body (nested type, initialiser)
+            p = match_close(toks, p) + 1
+            start = p
+            continue
+        if t == "(" and p > start:
+            q = match_close(toks, p)
+            if toks[p - 1][0] in ("<<", ">>") and toks[p - 2][0] == "operator":
+                name, head = "operator" + toks[p - 1][0], toks[start:p - 2]
+            else:
+                name, head = toks[p - 1][0], toks[start:p - 1]
+            k = q + 1
+            while k < end and toks[k][0] not in ("{", ";"):
+                k = match_close(toks, k) + 1 if toks[k][0] == "(" else k + 1
+            if k < end and toks[k][0] == "{" and re.match(r"^[A-Za-z_]\w*$|^operator", name):
+                e = match_close(toks, k)
+                out.append((name, toks[p + 1:q], toks[q + 1:k], toks[k + 1:e], head, toks[p][1]))
+                p = e + 1
+                start = p
+                continue
+            p = q + 1
+            continue
+        p += 1
+    return out
+
+
+def cstm(stmts, fn):
+    """statements of the body of `fn` -> Coq term of type cstm (Msgpack/ReaderChecks.v)"""
+    def cond(c):
+        w = txt(c)
+        return {"! is_": "CNotStream", "is_ . eof ( )": "CStreamEof", "observed != expected": "CObsNeqExp"}.get(w, "CBadCond")
+
+    def one(s):
+        if is_throw(s):
+            return "KThrow"
+        if s[0] == "simple":
+            w = txt(s[1])
+            if fn == "read" and w == "is_ . read ( ptr , size )":
+                return "KStreamRead"
+            if w == "check_eof ( )":
+                return "KCheckEof"
+            if fn == "check_type" and w in ("std :: uint8_t observed = get_uint8 ( )", "const std :: uint8_t observed = get_uint8 ( )"):
+                return "KObsGet8"
+            return "KBad"
+        if s[0] == "if":
+            _, c, then, els, _ = s
+            return "KIf %s (%s) %s" % (cond(c), cstm([then], fn), "(%s)" % cstm([els], fn) if els is not None else "KSkip")
+        return "KBad"
+    return "kseq [%s]" % "; ".join(one(s) for s in flatten(stmts))
+
+
+CHECK_SIGS = {"check_eof": ("void", ""), "read": ("void", "char * ptr , std :: size_t size"), "check_type": ("void", "std :: uint8_t expected")}
+
+
+def reader_checks(text):
+    """{"check_eof"|"read"|"check_type": Coq cstm term, "users": [suser terms], "notes": [...]}"""
+    toks = lex(text)
+    res = {"check_eof": "KBad", "read": "KBad", "check_type": "KBad", "users": [], "notes": []}
+    seen = {}
+    for name, params, mid, body, head, line in member_functions(toks, "Reader"):
+        touches = any(t == "is_" for t, _ in params + mid + body)
+        if name in CHECK_SIGS:
+            seen[name] = seen.get(name, 0) + 1
+            ret, want = CHECK_SIGS[name]
+            if seen[name] > 1:
+                res[name] = "KBad"
+                res["notes"].append("second definition of %s at line %d" % (name, line))
+            elif txt(head) != ret or txt(params) != want or mid:
+                res["notes"].append("signature `%s %s(%s) %s` at line %d" % (txt(head), name, txt(params), txt(mid), line))
+            else:
+                try:
+                    res[name] = cstm(parse_stmts(body), name)
+                except Exception as e:      # the body does not parse as statements
+                    res["notes"].append("%s: %s: %s" % (name, type(e).__name__, e))
+                if "KBad" in res[name] or "CBadCond" in res[name]:
+                    res["notes"].append("body of %s at line %d not understood: `%s`" % (name, line, txt(body)[:200]))
+        if touches:
+            m = re.match(r"^get_uint(\d+)$", name)
+            u = {"check_eof": "UCheckEof", "read": "URead", "Reader": "UCtor"}.get(name) or ("UGet %s" % m.group(1) if m else None)
+            if u is None:
+                u = "UOther"
+                res["notes"].append("`is_` is used in %s at line %d" % (name, line))
+            res["users"].append(u)
+    for name in CHECK_SIGS:
+        if name not in seen:
+            res["notes"].append("no definition of Reader::%s" % name)
+    return res
+
+
 # ------------------------------------------------------------------ output
 def coq_byte(b):
     if b[0] == "HC":
@@ -738,8 +854,13 @@ def rows():
     except Exception as e:
         gets, rr, runknown, ull_ok = [], [], 1, False
         notes.append("reader.h: %s: %s" % (type(e).__name__, e))
+    try:
+        checks = reader_checks(rsrc)
+    except Exception as e:
+        checks = {"check_eof": "KBad", "read": "KBad", "check_type": "KBad", "users": ["UOther"],
+                  "notes": ["reader.h (check_eof / read / check_type): %s: %s" % (type(e).__name__, e)]}
     return {"writer": wr, "pays": pays, "str_entry": str_entry, "writer_unknown": wunknown, "uc_ok": uc_ok,
-            "gets": gets, "reader": rr, "reader_unknown": runknown, "ull_ok": ull_ok, "notes": notes}
+            "gets": gets, "reader": rr, "reader_unknown": runknown, "ull_ok": ull_ok, "notes": notes, "checks": checks}
 
 
 def main():
@@ -767,18 +888,34 @@ def main():
     L.append("].")
     L.append("Definition READER_UNKNOWN : N := %d." % d["reader_unknown"])
     L.append("Definition READER_ULL_IS_U64_CAST : bool := %s.   (* #define PRIMITIV_ULL(expr) static_cast<std::uint64_t>(expr) *)" % ("true" if d["ull_ok"] else "false"))
-    new = "\n".join(L) + "\n"
-    os.makedirs(os.path.dirname(OUT), exist_ok=True)
+    write_if_changed(OUT, "\n".join(L) + "\n")
+    c = d["checks"]
+    cmt = lambda n: "(* note: %s *)" % n.replace("(*", "( *").replace("*)", "* )")
+    C = ["(* GENERATED by translate/gen_io_headers.py from msgpack/reader.h -- do not edit *)",
+         "From Coq Require Import NArith List.", "From PV Require Import Msgpack.ReaderChecks.",
+         "Import ListNotations.", "Local Open Scope N_scope.", ""] + [cmt(n) for n in c["notes"]] + [
+         "Definition READER_CHECK_EOF : cstm := %s.   (* body of void check_eof() *)" % c["check_eof"],
+         "Definition READER_READ : cstm := %s.   (* body of void read(char *ptr, std::size_t size) *)" % c["read"],
+         "Definition READER_CHECK_TYPE : cstm := %s.   (* body of void check_type(std::uint8_t expected) *)" % c["check_type"],
+         "Definition READER_STREAM_USERS : list suser := [%s].   (* member functions that mention is_ *)" % "; ".join(c["users"])]
+    write_if_changed(OUT_CHECKS, "\n".join(C) + "\n")
+    return d
+
+
+def write_if_changed(path, new):
+    """atomic (rename of a private temporary file); untouched when the content is the same"""
+    os.makedirs(os.path.dirname(path), exist_ok=True)
     try:
-        if open(OUT).read() == new:
-            return d
+        if open(path).read() == new:
+            return
     except OSError:
         pass
-    with open(OUT, "w") as f:
+    tmp = "%s.%d.tmp" % (path, os.getpid())
+    with open(tmp, "w") as f:
         f.write(new)
-    return d
+    os.replace(tmp, path)
 
 
 if __name__ == "__main__":
     r = main()
-    print("%d writer rows, %d reader rows, %d get functions; notes: %s" % (len(r["writer"]), len(r["reader"]), len(r["gets"]), r["notes"]))
+    print("%d writer rows, %d reader rows, %d get functions; notes: %s; reader checks: %s" % (len(r["writer"]), len(r["reader"]), len(r["gets"]), r["notes"], r["checks"]))
